@@ -6,6 +6,7 @@ All statements are over an arbitrary commutative ring, arbitrary (abstract) leve
 representation matrices `I` and arbitrary index lists; nothing is bounded.
 -/
 import Pyiga.Proofs.HAssemble
+import Pyiga.Proofs.HAssemble2
 import Pyiga.Proofs.Transfer
 
 namespace Pyiga.Props.C03
@@ -112,6 +113,63 @@ theorem level_blocks_spec (X : Input K) (k : Nat) :
   · intro hs
     simp only [hs]
     rfl
+
+
+/-! ## the transliterated bookkeeping as a whole (`Input.hbEntry` = value of the assembled COO data) -/
+
+/-- **The unique block that writes `(i,j)` is assembled on the finer level.**  For an active function
+`i` (level `ki`, position `a`) and `j` (level `kj`, position `b`) — canonical indices `off ki + a`,
+`off kj + b` — every block of every level other than `max ki kj` contributes nothing to the assembled
+entry: `hbEntry i j` is the contribution of level `max ki kj` alone, hence integrated with that
+level's quadrature.  Only hypothesis: the neighbour lists contain active functions of their level. -/
+theorem hb_entry_level (X : Input K) (hnb : ∀ k l, l < k → ∀ x ∈ X.nbrs k l, x ∈ X.H.ia l)
+    {ki kj a b : Nat} (ha : a < (X.H.ia ki).length) (hb : b < (X.H.ia kj).length)
+    (hki : ki < X.H.numlevels) (hkj : kj < X.H.numlevels) :
+    X.hbEntry (X.off ki + a) (X.off kj + b) = contrib X (max ki kj) (X.off ki + a) (X.off kj + b) :=
+  hbEntry_eq_contrib X hnb ha hb hki hkj
+
+/-- … and inside that level exactly one block writes it: the diagonal block if `ki = kj`, the block
+`A_hb_interlevel` if `ki < kj`, `A_hb_interlevel2` if `ki > kj`; the other two write nothing there. -/
+theorem hb_entry_unique_block (X : Input K) (hnb : ∀ k l, l < k → ∀ x ∈ X.nbrs k l, x ∈ X.H.ia l)
+    {ki kj a b : Nat} (ha : a < (X.H.ia ki).length) (hb : b < (X.H.ia kj).length)
+    (hki : ki < X.H.numlevels) (hkj : kj < X.H.numlevels) :
+    (ki = kj → X.hbEntry (X.off ki + a) (X.off kj + b)
+        = Input.scatterGet (blkD X ki) (X.newCan ki) (X.newCan ki) (X.off ki + a) (X.off kj + b)) ∧
+    (ki < kj → X.hbEntry (X.off ki + a) (X.off kj + b)
+        = Input.scatterGet (blkE X kj) (X.neighborsCan kj) (X.newCan kj) (X.off ki + a) (X.off kj + b)) ∧
+    (kj < ki → X.hbEntry (X.off ki + a) (X.off kj + b)
+        = Input.scatterGet (blkE2 X ki) (X.newCan ki) (X.neighborsCan ki) (X.off ki + a) (X.off kj + b)) :=
+  ⟨fun h => (hbEntry_same X hnb ha hb hki h).1, fun h => (hbEntry_lt X hnb ha hb hkj h).1,
+   fun h => (hbEntry_gt X hnb ha hb hki h).1⟩
+
+/-- **`interlevel_ix` loses nothing** (no hypothesis about it): every level-`k` function `r` on which
+the representation of a listed neighbour `x = ia lv [q]` (within the disparity range) is non-zero lies
+in `interlevel_ix[k]`, because a non-zero entry of the tensor-product prolongation product is a chain
+of non-zero prolongation entries, i.e. `r` is a grand-child of `x`. -/
+theorem interlevel_ix_covers (X : Input K) (hwf : X.H.WF) {k lv q r : Nat} (hk : k < X.H.numlevels)
+    (hlv : lv < k) (hfirst : X.firstLevel k ≤ lv) (hq : q < (X.H.ia lv).length)
+    (hx : (X.H.ia lv).getD q 0 ∈ X.nbrs k lv) (hr : r < X.H.Nl k)
+    (hne : (X.H.representFine k false none false).f r (X.H.ntb lv + q) ≠ 0) :
+    r ∈ X.interlevelIx k :=
+  interlevelIx_covers X hwf hk hlv hfirst hq hx hr hne
+
+/-- **C03 entrywise, for the transliterated bookkeeping.**  For active `i` (level `ki`) and `j`
+(level `kj`) the value the assembled COO data gives at `(i,j)` is the entry of `I_kᵀ A_k I_k` on the
+finer level `k = max ki kj` (`I_k` = the full `represent_fine(lv=k)`, `A_k` = the full level matrix).
+Residual hypotheses, all about the *inputs*: well-formed space data and square `A_k` (`LevelHyp`,
+incl. neighbours are duplicate-free active functions), and **neighbour coverage** (`NbrCoverage`,
+the one statement about supports — a mesh query of the refinement model, C04): whenever a coarser
+active function interacts with a level-`k` active function (`I_k[r,i]·A_k[r,c] ≠ 0` for some `r`),
+`cell_supp_indices` lists it and it is within the disparity range `range(max(0,k-d),k)`.  No
+hypothesis about `interlevel_ix`, `to_assemble`, the restricted `represent_fine(rows=…)` or the row-
+restricted level assembly remains; for `symmetric=True` the level matrix is assumed symmetric. -/
+theorem hb_entry_galerkin (X : Input K) {ki kj a b : Nat} (ha : a < (X.H.ia ki).length)
+    (hb : b < (X.H.ia kj).length) (h : LevelHyp X (max ki kj)) (hcov : NbrCoverage X (max ki kj))
+    (hsym : X.symmetric = true → ∀ r, r < X.H.Nl (max ki kj) → ∀ c, c < X.H.Nl (max ki kj) →
+      (X.Ak (max ki kj)).f r c = (X.Ak (max ki kj)).f c r) :
+    X.hbEntry (X.off ki + a) (X.off kj + b)
+      = (galerkin X (max ki kj)).f (X.off ki + a) (X.off kj + b) :=
+  Pyiga.HAsm.hb_entry_galerkin X ha hb h hcov hsym
 
 /-- non-vacuity of the hypotheses of `hb_entry` / `sym_flag`: a 3-function level with one
 interacting coarse function -/
